@@ -650,3 +650,86 @@ func readJSON(t *testing.T, path string, v interface{}) {
 		t.Fatalf("%s: %v", path, err)
 	}
 }
+
+const vtickerSrc = `package p
+
+import (
+	"fmt"
+	"time"
+)
+
+type holder struct {
+	t  *time.Ticker
+	tm *time.Timer
+}
+
+func g(h *holder) {
+	h.t = time.NewTicker(time.Minute)
+	defer h.t.Stop()
+	h.tm = time.NewTimer(time.Second)
+	mk := time.After
+	select {
+	case <-h.t.C:
+	case <-time.After(2 * time.Second):
+	case <-time.Tick(time.Hour):
+	case <-mk(time.Second):
+	}
+	time.AfterFunc(time.Second, func() {})
+	fmt.Println(time.Now(), time.Duration(3))
+}
+`
+
+func TestVTicker(t *testing.T) {
+	got, sites := rewrite(t, vtickerSrc, "vticker")
+	if len(sites) != 0 {
+		t.Errorf("vticker produced sites")
+	}
+	expectLines(t, got, map[int]string{
+		1:  `package p; import verifkit "verifkit"`,
+		9:  `t  *verifkit.Ticker`,
+		10: `tm *verifkit.Timer`,
+		14: `h.t = verifkit.NewTicker(time.Minute)`,
+		16: `h.tm = verifkit.NewTimer(time.Second)`,
+		17: `mk := verifkit.After`,
+		20: `case <-verifkit.After(2 * time.Second):`,
+		21: `case <-verifkit.Tick(time.Hour):`,
+		24: `time.AfterFunc(time.Second, func() {})`,
+		25: `fmt.Println(time.Now(), time.Duration(3))`,
+		27: `var _ = time.Now`,
+	})
+	// together with vclock: both kinds apply, neither disturbs the other
+	got, _ = rewrite(t, vtickerSrc, "yield", "vclock", "vticker")
+	expectLines(t, got, map[int]string{
+		14: `h.t = verifkit.NewTicker(time.Minute)`,
+		25: `fmt.Println(verifkit.Now(), time.Duration(3))`,
+	})
+	// vclock alone keeps its documented behaviour
+	got, _ = rewrite(t, vtickerSrc, "vclock")
+	expectLines(t, got, map[int]string{
+		14: `h.t = time.NewTicker(time.Minute)`,
+		20: `case <-time.After(2 * time.Second):`,
+	})
+}
+
+func TestVTickerShadow(t *testing.T) {
+	src := `package p
+
+import tm "time"
+
+type fake struct{}
+
+func (fake) NewTicker(int) int { return 0 }
+
+func f() {
+	_ = tm.NewTicker(tm.Second)
+	time := fake{}
+	_ = time.NewTicker(1)
+}
+`
+	got, _ := rewrite(t, src, "vticker")
+	expectLines(t, got, map[int]string{
+		10: `_ = verifkit.NewTicker(tm.Second)`,
+		12: `_ = time.NewTicker(1)`,
+		14: `var _ = tm.Now`,
+	})
+}
